@@ -63,7 +63,7 @@ def stat_from_tables(tables, lam):
 
 
 def gen_pd(rng, tier, independent=False):
-    nz = rng.choice([0, 0, 1, 1, 2])
+    nz = rng.choice([0, 0, 1, 1, 2, 2, 3])
     kx, ky = rng.choice([2, 2, 3, 4]), rng.choice([2, 2, 3, 4])
     kz = [rng.choice([2, 3]) for _ in range(nz)]
     nrows = rng.randint(20, 200)
@@ -90,7 +90,9 @@ def gen_pd(rng, tier, independent=False):
             rows.append([x, y] + zs)
     lam = rng.choice(list(LAMBDAS) + ["chi_square", "g_sq", "log_likelihood", "modified_log_likelihood", "numeric"])
     return {"kx": kx, "ky": ky, "kz": kz, "rows": rows, "lam": lam, "num": rng.choice([0.5, 2.0, -1.5]), "alpha": rng.choice([0.01, 0.05, 0.5]),
-            "dtype": rng.choice(["int", "category"]), "independent": independent}
+            "dtype": rng.choice(["int", "int", "category"]), "independent": independent,
+            # the statistic does not depend on how states are labelled nor on the frame's index
+            "relabel": rng.choice([None, None, rng.randrange(10 ** 6)]), "index": rng.choice(["range", "range", "shuffled", "reversed", "str"])}
 
 
 def gen_indep(rng, tier):
@@ -123,6 +125,22 @@ def make_df(case):
     if case["dtype"] == "category":
         for c in cols:
             df[c] = pd.Categorical(["s%d" % v for v in df[c]])
+    elif case.get("relabel") is not None:
+        # integer labels with gaps / negative values instead of 0..k-1
+        import random
+        prng = random.Random(case["relabel"])
+        for c in cols:
+            k = int(df[c].max()) + 1
+            labs = sorted(prng.sample(range(-3, 12), k))
+            prng.shuffle(labs) if prng.random() < .3 else None
+            df[c] = df[c].map(dict(enumerate(labs))).astype("int64")
+    ik = case.get("index", "range")
+    if ik == "shuffled":
+        df = df.sample(frac=1, random_state=len(df))            # rows AND index labels permuted together
+    elif ik == "reversed":
+        df.index = list(range(len(df) - 1, -1, -1))
+    elif ik == "str":
+        df.index = ["r%d" % i for i in range(len(df))]
     return df, cols[2:]
 
 
@@ -152,7 +170,8 @@ def run_pd(case, drv):
     mrows = [[r[0], r[1], core.ravel(kz, r[2:]) if kz else 0] for r in case["rows"]]
     lam = lam_value(case)
     m = drv.call("ci_stat", rows=mrows, kx=case["kx"], ky=case["ky"], ks=max(ks, 1), kind="neyman" if lam == -2.0 else "pearson")
-    tags = dict(lam=str(case["lam"]), nz=len(kz), dtype=case["dtype"], indep=case["independent"])
+    tags = dict(lam=str(case["lam"]), nz=len(kz), dtype=case["dtype"], indep=case["independent"], relabel=case.get("relabel") is not None,
+                index=case.get("index", "range"))
     # zero observed cells make some statistics infinite / undefined: keep lambda >= 0 there
     has_zero = any(o == 0 for t in m["tables"] for row in t for o, _ in row)
     if has_zero and lam < 0:
